@@ -10,3 +10,8 @@ package process
 //@ func (*SystemProcess).ExitNum [C21] trusted
 //@   pure
 //@   ensures result == $sysExit(sp)
+
+// Name.String returns the stored name (a locked getter).
+//@ func (*Name).String [C22] trusted
+//@   pure
+//@   ensures result == n.name
